@@ -5,6 +5,7 @@
    pushall <store> <remote> <local> <deleted names comma or -> -> REJECT | R <refs sorted by name id>
    pushnames <store> <remote> <local> <names>   -> R <refs sorted>
    miops <sg letters O/R/C/K or -> <pairs t:w,t:w> -> ops  d:s+s;d:s
+   aqops <sg letters O/R/C/K or -> <triples q:w:qint,...> -> ops  d:s+s;d:s   (add_to_queue_ops)
    incl <store> <refs> <pairs a:b,...>          -> 1 | 0
    anc <store> <a> <b>                          -> 1 | 0 *)
 let split c s = if s = "-" || s = "" then [] else String.split_on_char c s
@@ -20,6 +21,12 @@ let show_refs r =
 let nats s = List.map (fun x -> nat_of_int (int_of_string x)) (split ',' s)
 let show_nats l = String.concat "," (List.map (fun x -> string_of_int (int_of_nat x)) l)
 let strat = function 'O' -> Octopus | 'R' -> OctopusRev | 'C' -> Consecutive | 'K' -> ConsecutiveRev | _ -> failwith "strategy"
+let strats sg = if sg = "-" then [] else List.init (String.length sg) (fun i -> strat sg.[i])
+let show_ops ops = String.concat ";" (List.map (fun o -> string_of_int (int_of_nat o.op_dst) ^ ":" ^
+  String.concat "+" (List.map (fun x -> string_of_int (int_of_nat x)) o.op_srcs)) ops)
+let parse_triples s = List.map (fun t -> match String.split_on_char ':' t with
+  | [q; w; qi] -> ((nat_of_int (int_of_string q), nat_of_int (int_of_string w)), nat_of_int (int_of_string qi))
+  | _ -> failwith "triple") (split ',' s)
 let flow_handle (l : String.t) : String.t =
   try match words l with
   | ["merge"; st; h; srcs] ->
@@ -30,11 +37,8 @@ let flow_handle (l : String.t) : String.t =
      | None -> "REJECT" | Some r -> "R " ^ show_refs r)
   | ["pushnames"; st; remote; local; names] ->
     "R " ^ show_refs (push_names (parse_store st) (parse_refs remote) (parse_refs local) (nats names))
-  | ["miops"; sg; pairs] ->
-    let sg = if sg = "-" then [] else List.init (String.length sg) (fun i -> strat sg.[i]) in
-    let ops = merge_integration_ops sg (parse_refs pairs) in
-    String.concat ";" (List.map (fun o -> string_of_int (int_of_nat o.op_dst) ^ ":" ^
-      String.concat "+" (List.map (fun x -> string_of_int (int_of_nat x)) o.op_srcs)) ops)
+  | ["miops"; sg; pairs] -> show_ops (merge_integration_ops (strats sg) (parse_refs pairs))
+  | ["aqops"; sg; triples] -> show_ops (add_to_queue_ops (strats sg) (parse_triples triples))
   | ["incl"; st; refs; pairs] ->
     word_of_bool (incl_b { st = parse_store st; refs = parse_refs refs } (parse_refs pairs))
   | ["anc"; st; a; b] -> word_of_bool (anc (parse_store st) (nat_of_int (int_of_string a)) (nat_of_int (int_of_string b)))
